@@ -111,7 +111,7 @@ def check_case(case):
     obj_label = {index[e]: [objs[i] for i in range(o.n) if o.cl([i]) == e] for e in exts}
     prop_label = {index[e]: [props[j] for j in range(o.m) if o.dn([j]) == e] for e in exts}
 
-    for mode in ('default', 'custom', 'blank'):
+    for mode in ('default', 'custom', 'blank', 'only-object-callback', 'only-property-callback'):
         calls = {'o': [], 'p': []}
         if mode == 'default':
             dot = ctx.lattice.graphviz()
@@ -133,7 +133,12 @@ def check_case(case):
             def make_p(names, _c=calls['p']):
                 _c.append(list(names))
                 return custom_label(names) + '!'
-            dot = ctx.lattice.graphviz(make_object_label=make_o, make_property_label=make_p)
+            if mode == 'only-object-callback':        # the other callback keeps its default (' '.join)
+                dot = ctx.lattice.graphviz(make_object_label=make_o)
+            elif mode == 'only-property-callback':
+                dot = ctx.lattice.graphviz(make_property_label=make_p)
+            else:
+                dot = ctx.lattice.graphviz(make_object_label=make_o, make_property_label=make_p)
         nodes, edges, _, unread = parse_body(dot.body)
         if unread:
             out.append(fail('dot.statements', 'the DOT source consists of node and edge statements', 'readable statements',
@@ -172,10 +177,10 @@ def check_case(case):
         exp_loops, got_loops = [], []
         for i in range(N):
             if obj_label[i]:
-                exp_loops.append(('c%d' % i, 'headlabel', ' '.join(obj_label[i]) if mode == 'default'
+                exp_loops.append(('c%d' % i, 'headlabel', ' '.join(obj_label[i]) if mode in ('default', 'only-property-callback')
                                   else '' if mode == 'blank' else custom_label(obj_label[i])))
             if prop_label[i]:
-                exp_loops.append(('c%d' % i, 'taillabel', ' '.join(prop_label[i]) if mode == 'default'
+                exp_loops.append(('c%d' % i, 'taillabel', ' '.join(prop_label[i]) if mode in ('default', 'only-object-callback')
                                   else ('' if len(prop_label[i]) % 2 else custom_label(prop_label[i])) if mode == 'blank'
                                   else custom_label(prop_label[i]) + '!'))
         for a, attrs in loops:
